@@ -184,6 +184,9 @@ def run_shard(params, rec):
         path = os.path.join(tmpdir, "ref.log")
         with FdCapture(path):
             ref = jitlib.run(spec, backend, prog, max_steps=600, trace=True, jitter=refj)
+        if ref.raised == "CalledProcessError":
+            rec.count("unsupported_by_backend")   # the C compiler rejected a generated block
+            continue
         if ref.budget:
             rec.count("discarded_budget")
             continue
@@ -204,6 +207,9 @@ def run_shard(params, rec):
             except Exception as exc:
                 rec.count("harness_cfg_error")
                 rec.extra.setdefault("harness_cfg_error", repr(exc)[:300])
+                continue
+            if out.raised == "CalledProcessError":
+                rec.count("unsupported_by_backend")
                 continue
             if out.budget:
                 rec.fail("%s: configuration does not finish within the reference step budget" % backend,
